@@ -35,7 +35,9 @@ func Relate(a, b Geometry) (string, error) {
 			nonEmpty = a
 			flip = true
 		}
-		switch nonEmpty.Dimension() {
+		// Empty members of a GeometryCollection must not contribute to its
+		// dimension (they have no interior, boundary, or exterior).
+		switch highestDimensionIgnoreEmpties(nonEmpty) {
 		case 0:
 			im.set(imExterior, imInterior, '0')
 			im.set(imExterior, imBoundary, 'F')
@@ -174,8 +176,10 @@ func CoveredBy(a, b Geometry) (bool, error) {
 //
 // 3. The intersection must not equal either of the input geometries.
 func Crosses(a, b Geometry) (bool, error) {
-	dimA := a.Dimension()
-	dimB := b.Dimension()
+	// Empty members of GeometryCollections are ignored when finding the
+	// dimensions, since they contribute no points to the geometries.
+	dimA := highestDimensionIgnoreEmpties(a)
+	dimB := highestDimensionIgnoreEmpties(b)
 	switch {
 	case dimA < dimB: // Point/Line, Point/Area, Line/Area
 		return relateMatchesAnyPattern(a, b, "T*T******")
@@ -198,8 +202,10 @@ func Crosses(a, b Geometry) (bool, error) {
 // 3. The intersection of the geometries must have the same dimension as the
 // geometries themselves.
 func Overlaps(a, b Geometry) (bool, error) {
-	dimA := a.Dimension()
-	dimB := b.Dimension()
+	// Empty members of GeometryCollections are ignored when finding the
+	// dimensions, since they contribute no points to the geometries.
+	dimA := highestDimensionIgnoreEmpties(a)
+	dimB := highestDimensionIgnoreEmpties(b)
 	switch {
 	case (dimA == 0 && dimB == 0) || (dimA == 2 && dimB == 2):
 		return relateMatchesAnyPattern(a, b, "T*T***T**")
